@@ -27,7 +27,7 @@ RULE = (
 ASSUMPTIONS = ["CPython 3.12 type() is the reference for C3 linearisation and attribute lookup", "class bodies contain only the generated members"]
 MANIFEST = {
     "category": "exploration",
-    "text": "(incl. family N: class paths that are textual prefixes/suffixes of each other across modules) Bounded exhaustive enumeration of class hierarchies (N<=5 quick, N<=6 thorough, <=3 ordered bases), their two-module splits through import aliases, all placements of two member names, and all cyclic base assignments on three classes; each is loaded by the real visitor/loader and compared with CPython's type().__mro__ and attribute lookup; family V addresses every attribute CPython finds by path through import aliases and inherited nested classes (depth 3). Same-name shapes include class bodies that bind the name of one of their bases; view shapes include overrides seen through import aliases.",
+    "text": "(incl. family N: class paths that are textual prefixes/suffixes of each other across modules) Bounded exhaustive enumeration of class hierarchies (N<=5 quick, N<=6 thorough, <=3 ordered bases), their two-module splits through import aliases, all placements of two member names, and all cyclic base assignments on three classes; each is loaded by the real visitor/loader and compared with CPython's type().__mro__ and attribute lookup; family V addresses every attribute CPython finds by path through import aliases and inherited nested classes (depth 3). Same-name shapes include class bodies that bind the name of one of their bases; view shapes include overrides seen through import aliases. Same-name shapes include a base name bound by an explicit import and by a wildcard import (both orders).",
     "note": "CPython is the oracle; complete inside the bound on N and base count, silent beyond it.",
     "technique": "model checking by exhaustive small-scope enumeration of hierarchies on the real code, CPython type() as oracle",
 }
